@@ -11,4 +11,42 @@ PROPS = {
         'assumptions': ['ports within 1..65535, protocols TCP/UDP/SCTP',
                         'claimed domain: sets built by MakeConnectionSet/GetAllTCPConnections/AddConnection (on a set not in AllowAll form), then Union/Intersection/Subtract/Copy'],
     },
+    'C01': {
+        'lean': ['Netpol.Properties.C01'],
+        'families': [('list', 1500, 60000)],
+        'rule': 'generated worlds (1-3 namespaces, 1-5 workloads/pods, 0-4 NetworkPolicies, optional ANPs/BANP) rendered to a directory and '
+                'analysed by the real ConnlistFromDirPath; compared with the model (K-diff) and with the pointwise specification (P). '
+                'non-trivial = the analysis succeeded and some pair is restricted; distinct = distinct result relations',
+        'assumptions': ['World.Valid inputs: protocols TCP/UDP/SCTP, ports 1..65535, well-formed selectors, IPv4 CIDRs'],
+    },
+    'C02': {
+        'lean': ['Netpol.Properties.C02'],
+        'families': [('list', 1500, 60000)],
+        'rule': 'as C01, worlds with AdminNetworkPolicies (distinct priorities) and an optional BaselineAdminNetworkPolicy, documents shuffled',
+        'assumptions': ['World.Valid inputs; ANP priorities distinct and within 0..1000'],
+    },
+    'C05': {
+        'lean': ['Netpol.Properties.C05'],
+        'families': [('list', 1500, 60000)],
+        'rule': 'as C01; P is a direct well-formedness checker over the returned []Peer2PeerConnection and []Peer',
+        'assumptions': ['World.Valid inputs'],
+    },
+    'C15': {
+        'lean': ['Netpol.Properties.C15'],
+        'families': [('hist', 600, 40000)],
+        'shard_min': 100,
+        'rule': 'histories of 5-60 InsertObject/DeleteObject/ClearResources/CheckIfAllowed operations over a vocabulary of 3 namespaces, 5 pods '
+                '(3 owners), 3 NetworkPolicies, 3 ANPs and the BANP, cache capacity 2/3/10/500, queries repeating earlier queries; '
+                'after every operation outcome, cache content (LRU order) and ANP order are compared with the model; every query is also put '
+                'to a fresh engine with the same current objects (P). non-trivial = a query that follows an update; distinct by (query, answer, number of objects)',
+        'assumptions': ['pods with one owner key have equal container ports is NOT assumed: the generator produces the excluded point too'],
+    },
+    'C03': {
+        'lean': ['Netpol.Properties.C03'],
+        'families': [('hist', 600, 40000)],
+        'shard_min': 100,
+        'rule': 'as C15; every CheckIfAllowed answer (numeric port 1..65535, at least one pod end) is compared with Contains() on the connection set the '
+                'list path (allAllowedConnections) computes on a fresh engine holding the same objects',
+        'assumptions': ['World.Valid inputs'],
+    },
 }
